@@ -62,8 +62,11 @@ R1ForBases(c, bases) ==
 R1For(c) == R1ForBases(c, BaseFor(c))
 R1Taint(c) == IF c.vm = "fixed" THEN "m" ELSE "c"
 
+\* function entries: pc 0 and the target of every local call
+EntriesOf(p) == {0} \cup { SegStart(p, s) + 1 + p[s].i.imm :
+                             s \in { x \in RealSegs(p) : p[x].i.opc = CALL /\ p[x].i.src = 1 } }
 EnvFor(c) == [prog |-> c.prog, base |-> BaseFor(c), helpers |-> c.helpers,
-              fsz |-> c.fsz, budget |-> c.budget, dev |-> c.dev, c |-> c]
+              fsz |-> c.fsz, budget |-> c.budget, dev |-> c.dev, c |-> c, entries |-> EntriesOf(c.prog)]
 
 InitFor(c) == InitWith(EnvFor(c), MemFor(c), R1For(c), R1Taint(c))
 
